@@ -344,12 +344,16 @@ func (o *Op) Coq() string {
 	return fmt.Sprintf("mkOp %d (Some %d) %s (Some %s)", o.Inv, o.Ret, o.Call.Coq(), o.Res.Coq())
 }
 
-func CoqHist(ops []Op, strict bool) string {
+func CoqHist(ops []Op, strict bool, compaction bool) string {
 	xs := make([]string, len(ops))
 	for i := range ops {
 		xs[i] = ops[i].Coq()
 	}
-	return "(CHist [" + strings.Join(xs, ";\n   ") + "] " + b2s(strict) + ")"
+	ctor := "CHist"
+	if compaction {
+		ctor = "CHistCompact"
+	}
+	return "(" + ctor + " [" + strings.Join(xs, ";\n   ") + "] " + b2s(strict) + ")"
 }
 
 func CoqSeq(ops []Op) string {
